@@ -61,12 +61,12 @@ def run(ctx):
         good, failures = c01.collect(ctx, pkgs, dirs, {n: cache["results"][n] for n, _ in pkgs}, stats)
         if failures:
             # C01 diagnosed them per program when it ran; here: rerun the failing packages' programs alone
-            for g, d, rd, rr in c01.split_failures(ctx, failures, os.path.join(ctx.work, "pkgs"), stats, 420 if ctx.quick else 1500):
+            for g, d, rd, rr in c01.split_failures(ctx, failures, os.path.join(ctx.work, "pkgs"), stats, 600 if ctx.quick else 1800):
                 o = c01.report_single(ctx, g, d, rd, rr, stats)
                 if o: good.append((g, o[0], o[1]))
     else:
         stats["reused_c01_runs"] = False
-        npk, nprog = (2, 40) if ctx.quick else (24, 60)
+        npk, nprog = (2, 24) if ctx.quick else (24, 60)
         ctx2_stats = {}
         good, _canon = c01.run_generated(ctx, npk, nprog, ctx2_stats, save=False)
         good = [x for x in good if x[0] is not _canon]
